@@ -2,6 +2,7 @@ import LhasaV.Model.Extract
 import LhasaV.Lemmas.HeaderName
 import LhasaV.Lemmas.GlobFs
 import LhasaV.Lemmas.Contain
+import LhasaV.Lemmas.MessagesAgree
 /-!
 # C10 — extraction never touches anything outside the extraction directory
 -/
@@ -109,5 +110,16 @@ theorem run_contained (archive : Array UInt8) (o : Opts) (fs₀ : Fs.St) (answer
     (run archive o fs₀ answers).fs.cwd = fs₀.cwd ∧
     ∃ new, (run archive o fs₀ answers).fs.log = new ++ fs₀.log ∧ ∀ m ∈ new, fs₀.cwd <+: m.path :=
   Contain.run_contained_all archive o fs₀ answers hw hs hd
+
+open MessagesAgree in
+/-- `run_contained` for the message-bearing model of the loop (the one compared byte for byte with
+the real tool's output): every mutation acts below the extraction directory -/
+theorem run_contained_messages (archive : Array UInt8) (o : Opts) (fs₀ : Fs.St) (answers : Bytes)
+    (hw : o.extractPath = none) (hsl : Contain.SafeLinks fs₀) (hdo : Contain.DirsOk fs₀)
+    (hd : o.dryRun = false) (hp : PromptOk o.overwrite answers) (hs : TraceNoTrail archive o fs₀ answers) :
+    (Messages.runExtract archive o fs₀ answers).2.2.cwd = fs₀.cwd ∧
+    ∃ new, (Messages.runExtract archive o fs₀ answers).2.2.log = new ++ fs₀.log ∧
+      ∀ m ∈ new, fs₀.cwd <+: m.path :=
+  MessagesAgree.mrun_contained archive o fs₀ answers hw hsl hdo hd hp hs
 
 end LhasaV.Props.C10
